@@ -40,7 +40,9 @@ def mk_asset(ctx, st):
 def h_zone(ctx):
     W = ctx.ex.world_model
     f = z3.Function('is_transfer_source_zone', z3.BitVecSort(256), z3.BitVecSort(256), z3.BitVecSort(256), z3.BoolSort())
-    return [(None, f(W.asset(ctx.st, ctx.args[0]), W.ident(ctx.st, ctx.args[1]), W.ident(ctx.st, ctx.args[2])))]
+    t = f(W.asset(ctx.st, ctx.args[0]), W.ident(ctx.st, ctx.args[1]), W.ident(ctx.st, ctx.args[2]))
+    ctx.st.log.append(('zone', t))
+    return [(None, t)]
 
 
 def h_pop(ctx):
@@ -214,6 +216,9 @@ def receive_claims(run, ex, W, w0, p, kind, label, packet):
                   eff['escrow'] == z3.Store(w0['escrow'], ek, z3.Select(w0['escrow'], ek) - amt), z3.Extract(511, 256, ek) == W.ident(p, B.fld(ex, p, packet(p), 'chan_on_b', 'ChannelId'))]
     else:
         claim += [eff['escrow'] == w0['escrow'], z3.Select(eff['has_ibc_asset'], asset)]
+    zones = [e[1] for e in p.log if e[0] == 'zone']
+    # escrow is released exactly for a returning asset (the transfer-source-zone test of the incoming denom against the packet's source port / channel)
+    claim.append(z3.BoolVal(bool(ew)) == zones[0] if zones else z3.BoolVal(False))
     is_bridge = z3.Select(w0['bridge_rollup?'], recipient)
     if deps:
         d = ex.deref_val(p, deps[0])
